@@ -604,7 +604,12 @@ def c11(tier, seed):
     t = run_tlc("MC_StateMachine", c, invariants=["InvS"], name="c11-sm", timeout=3000, view="ViewS",
                 action_constraint="EmitEdge")
     r = replay("C11", t, seed, per, threads=14, dh="25519")
-    res = merge("model_checking", [t], [r],
+    # one-way rules in both transport modes, with every kind of message offered to the side that may not read
+    tcfg = [("c11-ow", dict(OneWayT=True, MaxSend=1, Depth=3 if tier == "quick" else 4, BadBudget=1, SetBudget=0, SmallBufs=True, BigBudget=1)),
+            ("c11-ow-sl", dict(OneWayT=True, Stateful=False, MaxSend=1, Depth=2 if tier == "quick" else 3, BadBudget=1, SetBudget=0,
+                               SmallBufs=True, BigBudget=1))]
+    tl2, rl2 = tlegs("C11", seed, tcfg)
+    res = merge("model_checking", [t] + tl2, [r] + rl2,
                  "TLC explores spec/MC_StateMachine.tla exhaustively: every sequence of calls from {write valid / into an "
                  "empty buffer, read genuine / stale / garbage, convert to stateful or stateless (at ANY time), transport "
                  "write/read} on both endpoints up to the stated depth and number of failing calls, for all 38 patterns and "
